@@ -649,6 +649,13 @@ def main(argv):
     ap.add_argument("pid")
     ap.add_argument("--tier", default=os.environ.get("VERIF_TIER", "quick"))
     ap.add_argument("--replay")
+    if argv and argv[0] == "selftest":
+        from . import selftest
+        try:
+            return selftest.main()
+        except ToolError as ex:
+            log("TOOL-ERROR:", ex)
+            return 2
     a = ap.parse_args(argv)
     seed = int(os.environ.get("VERIF_SEED", "1"))
     if a.pid not in props.REG:
